@@ -11,7 +11,7 @@ PROP = "C17"
 _P = {}
 SUP = ["Y", "m", "d", "j", "H", "M", "S", "F", "X", "z"]
 BAD = "aAbBcCDeGgIklnpPrRtTuUVwWxyZ"
-LITS = " -/:T.,_=@#abcxyzQ"
+LITS = " -/:T.,_=@#abcxyzQ" + "|*+?^$()[]{}\\"       # (regular-expression metacharacters are literal text like any other)
 
 
 def fmt_text(toks):
@@ -148,6 +148,9 @@ def expand(job):
             toks = [lit(rnd), {"d": "Y", "c": 0}, {"d": "bad", "c": ord(rnd.choice(BAD))}]
             rnd.shuffle(toks)
             yield {"mode": sp, "p": p, "toks": toks, "az": [0, 0], "strp": False}
+            continue
+        if rnd.random() < 0.01:
+            yield {"mode": sp, "p": p, "toks": [], "az": [0, 0], "strp": False}       # the empty format prints nothing
             continue
         toks, _ = rand_format(rnd)
         case = {"mode": sp, "p": p, "toks": toks, "az": rnd.choice([[0, 0], [5, 30], [-3, -30], [0, -30], [0, 45], [-9, -30], [13, 0], [-11, 0]]), "strp": True,
